@@ -3,7 +3,8 @@ PROP = dict(
     technique="generated concurrent workloads under the race detector + porcupine linearizability checking against a sequential "
               "bit-set model (fragment level in-package, and PQL/import requests through an in-process node's API)",
     level_text="rapid generates workloads of 2-8 client goroutines x 10-40 operations with generated pre-delays (Gosched counts, "
-               "40-200 us sleeps), GOMAXPROCS in {1,2,4,16} and snapshot thresholds in {2,5,20,default}. Fragment level: setBit, "
+               "40-200 us sleeps), GOMAXPROCS in {1,2,4,16}, snapshot thresholds in {2,5,20,default} and the cache type of each fragment / field drawn from "
+               "{ranked, lru, none} (FlushCache at fragment level and the holder-wide cache flush of monitorCacheFlush at API level are in the mix). Fragment level: setBit, "
                "clearBit, bulkImport, importRoaring (set/clear), setRow, clearRow, row, rows(column filter), top, top(ids), Blocks, "
                "Snapshot, FlushCache, minRow, maxRow on 1-2 fragments (set, mutex or bool: for the latter two the model is column -> at most "
                "one row, last linearized write wins, and no column may end with two rows) sharing a 2-worker snapshot queue, universe 2 rows x 4 columns. "
